@@ -1897,6 +1897,15 @@ def gen_cases(tier, rng):
     ALL4 = [[True, True, False], [True, False, False], [False, True, False], [False, False, False]]
     for j, g in enumerate(_two_atom_its()):
         cases.append(dict(kind="its", its=g, cfgs=ALL4, name="its-exh2/%d" % j))
+    # degenerate ITS graphs: empty, a single atom (with and without a charge change), isolated atoms only
+    def _atom(i, el, q, q2):
+        return [i, {"element": el, "aromatic": False, "hcount": 0, "charge": q, "atom_map": i,
+                    "typesGH": [[el, False, 0, q, []], [el, False, 0, q2, []]]}]
+    for j, g in enumerate([{"nodes": [], "edges": []}, {"nodes": [_atom(5, "C", 0, 0)], "edges": []}, {"nodes": [_atom(5, "N", 0, 1)], "edges": []},
+                           {"nodes": [_atom(12, "O", -2, -1), _atom(3, "Fe", 3, 2), _atom(10, "H", 0, 0)], "edges": []}]):
+        cases.append(dict(kind="its", its=g, cfgs=ALL4 + [[True, True, True], [False, False, True]], name="its-degenerate/%d" % j))
+    cases.append(dict(kind="hx", g={"nodes": [], "edges": []}, nodes=None, its=False, name="hx-degenerate/empty"))
+    cases.append(dict(kind="hx", g={"nodes": [], "edges": []}, nodes=[1], its=True, name="hx-degenerate/empty-its"))
     syms = _periodic_symbols()
     for k in range(150 if quick else 1200):
         n = rng.randint(2, 7)
